@@ -130,6 +130,10 @@ MUTATORS = {
     "C18": [
         ("expm ignores kind", r"quimb/evo\.py$", r"^(\s+)self\._update_method = self\._update_to_expm_dop\s*$", r"\1self._update_method = self._update_to_expm_ket"),
         ("callback before state", r"quimb/evo\.py$", r"^(\s+)self\._t = t\s*$", None),
+        ("inner dagger -> transpose", r"quimb/evo\.py$", r"^(\s+)dag\(x\),\s*$", r"\1x.T,"),
+        ("solved dop: phases not conjugated", r"quimb/evo\.py$", r"^(\s+)lvpvl = rdmul\(ldmul\(lt, self\.pe0\), lt\.conj\(\)\)\s*$", r"\1lvpvl = rdmul(ldmul(lt, self.pe0), lt)"),
+        ("solved dop: transpose of eigenvectors", r"quimb/evo\.py$", r"^(\s+)self\._pt = evecs @ \(lvpvl @ dag\(evecs\)\)\s*$", r"\1self._pt = evecs @ (lvpvl @ evecs.T)"),
+        ("callback state rescaled", r"quimb/evo\.py$", r"^(\s+)pt = qarray\(y\.reshape\(self\._d, -1\)\)\s*$", r"\1pt = qarray(y.reshape(self._d, -1)) / 2"),
         ("integrator starts at 0", r"quimb/evo\.py$", r"^(\s+)self\._p0\.toarray\(\)\.reshape\(-1\), self\.t0\s*$", r"\1self._p0.toarray().reshape(-1), 0.0"),
         ("ket key gets dop equation", r"quimb/evo\.py$", r"^(\s+)\(0, 1, 0, 1\): schrodinger_eq_ket_timedep,\s*$", r"\1(0, 1, 0, 1): schrodinger_eq_dop_timedep,"),
         ("timedep key gets static equation", r"quimb/evo\.py$", r"^(\s+)\(1, 0, 0, 1\): schrodinger_eq_dop_timedep,\s*$", r"\1(1, 0, 0, 1): schrodinger_eq_dop,"),
